@@ -146,6 +146,42 @@ struct alignas(64) PD
     }
 };
 
+// a payload without any state of its own: no members, a non-throwing default constructor, and a
+// destructor that matters all the same
+struct PE
+{
+    PE() noexcept
+    {
+        preg().born(this, 'E');
+    }
+    PE(const PE&) = delete;
+    ~PE()
+    {
+        preg().died(this, 'E');
+    }
+};
+
+// a payload that knows its owner and, while it is being destroyed, tells the owner to let go
+// (a "stop()" that the destructor calls, too)
+struct PR
+{
+    nitro::lang::quaint_ptr* owner;
+    int id;
+    PR(nitro::lang::quaint_ptr* o, int) : owner(o)
+    {
+        id = preg().born(this, 'R');
+    }
+    PR(const PR&) = delete;
+    ~PR()
+    {
+        nitro::lang::quaint_ptr* o = owner;
+        owner = nullptr;
+        if (o)
+            o->reset();
+        preg().died(this, 'R');
+    }
+};
+
 // ------------------------------------------------------------------- case
 
 enum QCode
@@ -161,6 +197,7 @@ enum QCode
     Q_READ,
     Q_VEC_TO_SLOT,
     Q_SHRINK,
+    Q_REENTRANT, // a payload whose destructor resets the pointer that owns it
     Q_COUNT
 };
 enum OCode
@@ -194,11 +231,13 @@ struct Case
 {
     std::string mode = "q";
     std::vector<Op> ops;
+    int elem = 0; // optional: 0 element type with assignment, 1 copy-constructible only (const member)
     template <class A>
     void io(A& x)
     {
         x("mode", mode);
         x("ops", ops);
+        x("elem", elem);
     }
 };
 
@@ -211,7 +250,7 @@ static const char* qname(int c)
 {
     static const char* n[] = { "make",     "move_construct", "move_assign", "reset",       "=nullptr",
                                "push_vec", "pop_vec",        "clear_vec",   "read",        "vec_to_slot",
-                               "shrink_to_fit" };
+                               "shrink_to_fit", "reset_of_a_payload_that_resets_its_owner" };
     return c >= 0 && c < Q_COUNT ? n[c] : "?";
 }
 static const char* oname(int c)
@@ -225,14 +264,14 @@ static const char* oname(int c)
 std::string describe(const Case& c)
 {
     std::ostringstream o;
-    o << (c.mode == "q" ? "quaint_ptr:" : "optional:");
+    o << (c.mode == "q" ? "quaint_ptr:" : c.elem ? "optional<type without assignment>:" : "optional:");
     for (auto& op : c.ops)
     {
         if (c.mode == "q")
         {
             o << " " << qname(op.code) << "(s" << op.a % 4;
             if (op.code == Q_MAKE)
-                o << ",P" << "ABCD"[op.b % 4] << "," << op.v;
+                o << ",P" << (op.v % 7 == 0 ? 'E' : "ABCD"[op.b % 4]) << "," << op.v;
             if (op.code == Q_MOVE_CONSTRUCT || op.code == Q_MOVE_ASSIGN)
                 o << "<-s" << op.b % 4;
             if (op.code == Q_VEC_TO_SLOT)
@@ -261,6 +300,8 @@ Case generate(vf::Src& src, const std::string& mode)
     if (mode == "rc" || mode == "fuzz")
         c.mode = src.coin(50) ? "o" : "q";
     int n = ex ? std::atoi(mode.c_str() + 3) : src.irange(1, 40);
+    if (c.mode == "o")
+        c.elem = ex ? src.irange(0, 1) : (src.coin(35) ? 1 : 0);
     for (int i = 0; i < n; ++i)
     {
         if (!ex && src.skip())
@@ -268,7 +309,7 @@ Case generate(vf::Src& src, const std::string& mode)
         Op op;
         if (c.mode == "q")
         {
-            op.code = static_cast<int>(src.weighted({ 25, 10, 18, 7, 5, 12, 4, 2, 8, 6, 3 }));
+            op.code = static_cast<int>(src.weighted({ 25, 10, 18, 7, 5, 12, 4, 2, 8, 6, 3, 2 }));
             op.a = src.irange(0, 3);
             op.b = src.irange(0, 3);
             op.v = src.irange(1, 100000);
@@ -340,8 +381,10 @@ static std::string check_quaint(const Case& c, vf::Ctx& ctx)
                 if (ms[a].id)
                     nontrivial = true; // overwriting an owning pointer
                 int before = preg().next_id;
-                char type = "ABCD"[op.b % 4];
-                if (type == 'A')
+                char type = op.v % 7 == 0 ? 'E' : "ABCD"[op.b % 4];
+                if (type == 'E')
+                    slot[a] = make_quaint<PE>();
+                else if (type == 'A')
                     slot[a] = make_quaint<PA>(op.v);
                 else if (type == 'B')
                     slot[a] = make_quaint<PB>(op.v);
@@ -473,11 +516,29 @@ static std::string check_quaint(const Case& c, vf::Ctx& ctx)
                         err = "moved-from pointer (vector element) is not empty" + when;
                 }
                 break;
+            case Q_REENTRANT:
+            {
+                quaint_ptr q;
+                q = make_quaint<PR>(&q, op.v);
+                ctx.tag("q:payload-resets-its-owner");
+                nontrivial = true;
+                q.reset();
+                if (q || q.get() != nullptr)
+                    err = "pointer is not empty after reset()" + when;
+                break;
+            }
             case Q_READ:
                 if (ms[a].id)
                 {
                     if (!slot[a] || slot[a].get() == nullptr)
                         err = "owning pointer reports empty" + when;
+                    else if (ms[a].type == 'E')
+                    {
+                        // nothing to read; every object has an address of its own
+                        for (int o = 0; o < 4; ++o)
+                            if (o != a && ms[o].id && slot[o].get() == slot[a].get())
+                                err = "two separately created payloads share one address" + when;
+                    }
                     else
                     {
                         int v = ms[a].type == 'A'   ? slot[a].as<PA>().value
@@ -547,9 +608,29 @@ static std::string check_quaint(const Case& c, vf::Ctx& ctx)
 
 // -------------------------------------------------------------------- optional
 
+// copy- and move-constructible, but not assignable (a const member): the optional never needs
+// assignment of T, only construction
+struct NoAssign
+{
+    tr::Tracked t;
+    const int tag = 7;
+    explicit NoAssign(int v) : t(v)
+    {
+    }
+};
+static const tr::Tracked& tracked_of(const tr::Tracked& t)
+{
+    return t;
+}
+static const tr::Tracked& tracked_of(const NoAssign& n)
+{
+    return n.t;
+}
+
+template <class Elem>
 static std::string check_optional(const Case& c, vf::Ctx& ctx)
 {
-    using Opt = nitro::lang::optional<tr::Tracked>;
+    using Opt = nitro::lang::optional<Elem>;
     tr::reg().reset();
     std::string err;
     bool nontrivial = false;
@@ -587,14 +668,14 @@ static std::string check_optional(const Case& c, vf::Ctx& ctx)
                     break;
                 case O_CONSTRUCT_LVALUE:
                 {
-                    tr::Tracked t(op.v);
+                    Elem t(op.v);
                     slot[a].reset(new Opt(t));
                     ref[a] = op.v;
                     exists[a] = true;
                     break;
                 }
                 case O_CONSTRUCT_RVALUE:
-                    slot[a].reset(new Opt(tr::Tracked(op.v)));
+                    slot[a].reset(new Opt(Elem(op.v)));
                     ref[a] = op.v;
                     exists[a] = true;
                     break;
@@ -626,13 +707,13 @@ static std::string check_optional(const Case& c, vf::Ctx& ctx)
                 }
                 case O_ASSIGN_LVALUE:
                 {
-                    tr::Tracked t(op.v);
+                    Elem t(op.v);
                     *slot[a] = t;
                     ref[a] = op.v;
                     break;
                 }
                 case O_ASSIGN_RVALUE:
-                    *slot[a] = tr::Tracked(op.v);
+                    *slot[a] = Elem(op.v);
                     ref[a] = op.v;
                     break;
                 case O_ASSIGN_EMPTY:
@@ -671,13 +752,14 @@ static std::string check_optional(const Case& c, vf::Ctx& ctx)
                 else if (on)
                 {
                     ++engaged;
-                    const tr::Tracked& t = *o;
+                    const Elem& el = *o;
+                    const tr::Tracked& t = tracked_of(el);
                     if (t.value != *ref[s])
                         err = "o" + std::to_string(s) + " holds " + std::to_string(t.value) +
                               ", reference holds " + std::to_string(*ref[s]) + when;
                     if (t.moved_from)
                         err = "o" + std::to_string(s) + " holds a moved-from object" + when;
-                    if (!addrs.insert(&t).second)
+                    if (!addrs.insert(&el).second)
                         err = "two optionals alias the same object" + when;
                 }
                 else
@@ -718,7 +800,10 @@ static std::string check_optional(const Case& c, vf::Ctx& ctx)
 std::string check(const Case& c, vf::Ctx& ctx)
 {
     ctx.tag("wrapper:" + c.mode);
-    return c.mode == "q" ? check_quaint(c, ctx) : check_optional(c, ctx);
+    if (c.mode != "q" && c.elem)
+        ctx.tag("o:element-without-assignment");
+    return c.mode == "q" ? check_quaint(c, ctx)
+                         : c.elem ? check_optional<NoAssign>(c, ctx) : check_optional<tr::Tracked>(c, ctx);
 }
 } // namespace h
 
